@@ -229,6 +229,13 @@ func (fc *FuncCtx) runHints(st *State, s ast.Stmt, when string) {
 			continue
 		}
 		h.used = true
+		if h.matchedAt == nil {
+			h.matchedAt = map[int]bool{}
+		}
+		h.matchedAt[int(s.Pos())] = true
+		if len(h.matchedAt) > 1 {
+			panic(engineError{"anchor matches more than one statement (make it longer): " + h.Anchor})
+		}
 		sc := &specCtx{names: st.names, old: fc.entry, pos: s.End(), pkg: fc.pkg.Types}
 		if when == "before" {
 			sc.pos = s.Pos()
